@@ -61,6 +61,9 @@ func (c *PromqlSeriesSettings) Validate() error {
 			return err
 		}
 		c.lookbackStepDuration = time.Duration(dur)
+		if c.lookbackStepDuration <= 0 {
+			return fmt.Errorf("lookbackStep must be > 0, got %s", c.LookbackStep)
+		}
 	}
 
 	c.fallbackTimeout = time.Minute * 5
